@@ -156,6 +156,8 @@ func isPadSrc(s string) bool {
 }
 
 func runC03(w *World, r *Report) {
+	r.Rule("shiftwidth", "no shift by a constant count that is as large as its operand's type (the value would always be 0: bits lost before widening)", 1)
+	shiftWidthRule(w, r, "shiftwidth", func(fi *FuncInfo) bool { return fi.Pkg.Types.Name() == "openflow13" || fi.Pkg.Types.Name() == "common" })
 	r.Rule("observers", "methods that formatting calls implicitly (String, Error, …) leave the value unchanged", 1)
 	observerRule(w, r, "observers", "openflow13", "common")
 	r.Rule("layout", "every specified field is written at its specified offset, width and byte order from the mapped Go field", 330)
